@@ -5,10 +5,15 @@
      H tb | cur | urls | ops            -> a history on the language server; per op output, then the reloaded
                                            dictionaries (user, then one per url)
      W tb | cur | ops                   -> a history on harper_wasm::Linter
+     M tb | .w,.w | .w,.w               -> MergedDictionary::eq of [curated; dictionary of the first word list] and
+                                           [curated; dictionary of the second]: "1" / "0"
    tb  = "c f l1 l2 ..", ..   (char, is_lowercase, to_lowercase)      cur = "dok c1 c2 ..", ..
    urls = "p cps" | "u cps", ..
-   ops(H): "s a : c cps" / "s f i : c cps" the dictionary file is written by hand | "a : .w" add user | "f i : .w" add file(url i) | "l i : .t,.t" lint | "r" restart
-           | "k a : .w : obs" / "k f i : .w : obs"  crash during the add; obs = what was found on disk afterwards:\n             "n" (no file) | "c cps" (text) | "t cps" (text followed by a cut UTF-8 sequence)
+   ops(H): "s a : c cps" / "s f i : c cps" the dictionary file is written by hand | "a : .w [: obs]" add user | "f i : .w [: obs]" add file(url i)
+           (obs = the dictionary file as found afterwards, from which the iteration order of the hash map is read off) | "l i : .t,.t" lint | "r" restart
+           | "k a : .w : obs : obstmp" / "k f i : .w : obs : obstmp"  crash during the add; obs / obstmp = what was found
+             on disk afterwards in the dictionary file / in its temporary sibling <name>.tmp:
+             "n" (no file) | "c cps" (text) | "t cps" (text followed by a cut UTF-8 sequence)
    ops(W): "i : .w,.w" | "l : .t,.t" | "e" *)
 let split c s = List.map String.trim (String.split_on_char c s)
 let ns s = List.map n_of_int (ints_of_line s)
@@ -43,28 +48,43 @@ let content_of s =
        if s.[0] = 'c' then Some (Clean body) else Some (Torn body)
 
 
-(* an iteration order of the words about to be written that is consistent with what a crash left on disk:
-   the complete lines found, in that order, then a word the unterminated tail is a prefix of, then the rest.
-   Only a proposal: the model checks that it is a permutation and that the content is then a crash state. *)
+(* an iteration order of the words about to be written that is consistent with what was found on disk
+   afterwards (after a completed add: the whole file; after a crash: the dictionary or its temporary sibling,
+   possibly cut short): the words whose lines make up the content, in that order, then a word the unterminated
+   tail is a prefix of, then the rest.  Found by backtracking (words may contain LF).
+   Only a proposal: the model checks that it is a permutation and that the content is then what it computes. *)
 let propose (ws : n list list) (obs : content option) : n list list =
   match obs with
   | None -> ws
   | Some (Clean t) | Some (Torn t) ->
-      let rec split cur acc = function
-        | [] -> (List.rev acc, List.rev cur)
-        | c :: r -> if int_of_n c = 10 then split [] (List.rev cur :: acc) r else split (c :: cur) acc r in
-      let (full, tail) = split [] [] t in
-      let rec take x = function [] -> None | y :: r -> if x = y then Some r else (match take x r with Some r' -> Some (y :: r') | None -> None) in
-      let rec go rem acc = function
-        | [] -> Some (List.rev acc, rem)
-        | l :: r -> (match take l rem with Some rem' -> go rem' (l :: acc) r | None -> None) in
-      (match go ws [] full with
-       | None -> ws
-       | Some (ordered, rem) ->
-           let rec is_prefix a b = match a, b with [], _ -> true | x :: a', y :: b' -> x = y && is_prefix a' b' | _ -> false in
-           (match List.partition (fun w -> tail <> [] && is_prefix tail w) rem with
-            | (w :: others, rest) -> ordered @ (w :: others) @ rest
-            | ([], rest) -> ordered @ rest))
+      let rec strip a b = match a, b with
+        | [], _ -> Some b
+        | x :: a', y :: b' -> if x = y then strip a' b' else None
+        | _ :: _, [] -> None in
+      let lf = n_of_int 10 in
+      let rec picks pre = function
+        | [] -> []
+        | x :: r -> (x, List.rev_append pre r) :: picks (x :: pre) r in
+      let rec go rem t acc =
+        match rem with
+        | [] -> if t = [] then Some (List.rev acc) else None
+        | _ ->
+            if t = [] then Some (List.rev_append acc rem) else
+            let rec try_ = function
+              | [] -> None
+              | (w, rest) :: more ->
+                  (match strip (w @ [lf]) t with
+                   | Some t' -> (match go rest t' (w :: acc) with Some r -> Some r | None -> try_ more)
+                   | None -> try_ more) in
+            (match try_ (picks [] rem) with
+             | Some r -> Some r
+             | None ->
+                 (* the tail is an unfinished line *)
+                 let rec tail_ = function
+                   | [] -> None
+                   | (w, rest) :: more -> (match strip t (w @ [lf]) with Some _ -> Some (List.rev_append acc (w :: rest)) | None -> tail_ more) in
+                 tail_ (picks [] rem)) in
+      (match go ws t [] with Some r -> r | None -> ws)
 
 let dump tb s urls =
   let at p = match x_words_at tb p s with Some ws -> show_words ws | None -> "E" in
@@ -74,28 +94,41 @@ let dump tb s urls =
 let history tb cur urls ops =
   let urls_a = Array.of_list urls in
   let st = ref fs_empty in
+  let cache = ref [] in
   let outs = List.map (fun o ->
     let parts = split ':' o in
     let hd = List.hd parts in
     let arg k = List.nth parts k in
-    let one op = let (s', out) = x_run tb cur !st [op] in st := s'; out in
+    let one_o order op = let ((s', c'), out) = x_run tb cur order (!st, !cache) [op] in st := s'; cache := c'; out in
+    let one op = one_o [] op in
+    (* a completed add: the content found in the dictionary file afterwards (optional 3rd field) fixes the order *)
+    let add sc w = 
+      let order = (match parts with [_; _; o] -> propose (x_add_words tb sc w !st) (content_of o) | _ -> []) in
+      ignore (one_o order (AddWord (sc, w))); "+" in
     match String.split_on_char ' ' hd with
-    | ["a"] -> ignore (one (AddWord (SUser, word_of (arg 1)))); "+"
-    | ["f"; i] -> ignore (one (AddWord (SFile urls_a.(int_of_string i), word_of (arg 1)))); "+"
+    | ["a"] -> add SUser (word_of (arg 1))
+    | ["f"; i] -> add (SFile urls_a.(int_of_string i)) (word_of (arg 1))
     | ["l"; i] ->
         (match one (LintDoc (urls_a.(int_of_string i), words_of_field (arg 1))) with
          | [fl] -> show_flags fl | _ -> "?")
     | "s" :: sc ->
         (* a dictionary file written by hand *)
         let sc = (match sc with ["a"] -> SUser | ["f"; i] -> SFile urls_a.(int_of_string i) | _ -> failwith "bad scope") in
-        st := x_crash_state sc !st (content_of (arg 1)); "s"
+        (match content_of (arg 1) with Some c -> st := x_seed_state sc !st c | None -> ()); "s"
     | ["r"] -> ignore (one Restart); "r"
     | "k" :: sc ->
         let sc = (match sc with ["a"] -> SUser | ["f"; i] -> SFile urls_a.(int_of_string i) | _ -> failwith "bad scope") in
         let w = word_of (arg 1) in
         let obs = content_of (arg 2) in
-        let order = propose (x_add_words tb sc w !st) obs in
-        if x_crash_ok tb order sc w !st obs then (st := x_crash_state sc !st obs; "k1") else "k0"
+        let obstmp = content_of (arg 3) in
+        (* the complete new text, if it is anywhere, is in the dictionary file; otherwise the sibling shows how far the write got *)
+        let hint = (match obs, obstmp with _, Some _ -> obstmp | _, None -> obs) in
+        let try_order o = x_crash_ok tb o sc w !st obs obstmp in
+        let o1 = propose (x_add_words tb sc w !st) hint in
+        let o2 = propose (x_add_words tb sc w !st) obs in
+        (* the process died: the next operation talks to a new server (no linter cache) *)
+        cache := [];
+        if try_order o1 || try_order o2 then (st := x_crash_state sc !st obs obstmp; "k1") else "k0"
     | _ -> "?") ops in
   String.concat ";" outs ^ " # " ^ dump tb !st urls
 
@@ -125,6 +158,7 @@ let () =
             let urls = if String.trim urls = "" then [] else List.map url_of (split ',' urls) in
             let ops = if String.trim ops = "" then [] else split ';' ops in
             history (table tb) (curated cur) urls ops
+        | 'M', [tb; a; b] -> if x_merge_eq (table tb) (words_of_field a) (words_of_field b) then "1" else "0"
         | 'W', [tb; cur; ops] ->
             let ops = if String.trim ops = "" then [] else split ';' ops in
             wasm_history (table tb) (curated cur) ops
